@@ -13,7 +13,7 @@ import (
 func C05(c *Ctx) {
 	r := c.R
 	r.Technique = "typestate abstract interpretation of state-store versions and linear clone tokens over every evaluator of the 12 template variants that keep the store; symbol-absence check on the 4 that drop it; ownership (who-may-write) scan for globalStore"
-	r.Explanation = "Decides the inductive state-rollback invariant of the interpreter: (a) an evaluator that reports failure leaves the state store at the version it had at entry; (b) & and ! leave it at the entry version on every return; (c) action and predicate blocks are bracketed by a clone taken at the version current before the block and restored right after it, state blocks are not; (d) on success paths no older snapshot is reinstated (effects of state blocks persist in execution order); (e) each cloneState() token reaches restoreState at most once per path, restoreState discards the old dict before installing the clone and Discard empties the dict before pooling it; (f) the runtime never reassigns, clears or pools globalStore; (g) the left-recursion leader returns with the store of the last accepted growth step. In the 4 variants generated for Optimize without state blocks no state symbol survives. The invariant is demanded, not the redundant restoreState after a failed alternative. Not decided: correctness of user Clone() methods; behaviour under Memoize(true) (outside the property's default-option scope)."
+	r.Explanation = "Decides the inductive state-rollback invariant of the interpreter: (a) an evaluator that reports failure leaves the state store at the version it had at entry; (b) & and ! leave it at the entry version on every return; (c) action and predicate blocks are bracketed by a clone taken at the version current before the block and restored right after it, state blocks are not; (d) on success paths no older snapshot is reinstated (effects of state blocks persist in execution order); (e) each cloneState() token reaches restoreState at most once per path, restoreState discards the old dict before installing the clone and Discard empties the dict before pooling it; (f) the runtime never reassigns, clears or pools globalStore; (g) the left-recursion leader returns with the store of the last accepted growth step. In the 4 variants generated for Optimize without state blocks no state symbol survives. The invariant is demanded, not the redundant restoreState after a failed alternative. (h) with default options nothing is answered from the memo table without reinstating the state effects of the remembered evaluation (C05-h: the leader routine of a left-recursive rule does - finding F18). Not decided: correctness of user Clone() methods; behaviour under Memoize(true) (outside the property's default-option scope)."
 	r.Assumptions = []string{"induction hypothesis on callee evaluators (closed by C05-a on every evaluator)", "user Clone() returns an independent copy", "sync.Pool contract"}
 	r.Rule("C05-a", "every ok=false return of every evaluator has the state store at its entry version")
 	r.Rule("C05-b", "every return of parseAndExpr / parseNotExpr has the state store at its entry version")
@@ -22,6 +22,7 @@ func C05(c *Ctx) {
 	r.Rule("C05-e", "clone tokens are linear (no second restoreState of the same token on any path); restoreState = Discard old; install clone; Discard = delete all keys; Put")
 	r.Rule("C05-f", "globalStore is written only by make() in newParser and element-wise in the GlobalStore option; never deleted from, reassigned or pooled")
 	r.Rule("C05-g", "parseRuleRecursiveLeader returns with position, state store and error list equal to those recorded with the returned lastResult (the final, non-extending attempt leaves nothing behind)")
+	r.Rule("C05-h", "with default options nothing is answered from the memo table in a parser that has a state store unless the state effects of the remembered evaluation are reinstated: the leader routine of a left-recursive rule keeps its final result in the table for the rest of the parse, so a path of parseRuleRecursiveLeader that returns a looked-up tuple without evaluating skips the state-change blocks of that evaluation (they were rolled back when the first use of the rule was backtracked over)")
 	r.Rule("C05-n", "variants without state store contain none of cloneState, restoreState, statePool, Cloner, storeDict.Discard or a state field")
 	r.Rule("C05-x", "every statement of every evaluator has a transfer function")
 
@@ -49,6 +50,7 @@ func C05(c *Ctx) {
 			c05Func(c, a, fn)
 		}
 		c05Shapes(c, a)
+		c05LeaderMemoHit(c, a)
 	}
 	r.Min("variants with state store", 12, nState)
 	for _, a := range abs {
@@ -342,4 +344,40 @@ func c05Global(c *Ctx, a *absVariant) {
 	} else {
 		r.Ok("C05-f", "T.globalStore:ownership", vn, "builder/static_code.go", fmt.Sprintf("%d uses: allocation in newParser, element access in the GlobalStore option only", n))
 	}
+}
+
+// c05LeaderMemoHit (C05-h): in a variant with a state store and left recursion, a path of parseRuleRecursiveLeader that
+// returns what getMemoized found without evaluating the rule replays value and end position but not the state
+// effects of the remembered evaluation. The table entry outlives the first use of the rule (it is written
+// unconditionally, not only under Memoize), so after backtracking over a left-recursive rule that ran state blocks the
+// second use at the same offset continues with the rolled-back store.
+func c05LeaderMemoHit(c *Ctx, a *absVariant) {
+	r := c.R
+	v := a.V
+	if !v.Params.LeftRecursion {
+		return
+	}
+	fd := v.Func("parser", "parseRuleRecursiveLeader")
+	if fd == nil {
+		r.Fatal("variant %s: parseRuleRecursiveLeader missing", v.Name)
+		return
+	}
+	nHit, nHitStateless := 0, 0
+	for _, p := range c.vnorm(v).without("read", "restore", "failAt", "sliceFrom", "in", "out", "addErr", "addErrAt", "getMemoized", "setMemoized", "parseRule", "cloneState", "restoreState", "printIndent").normPaths(fd) {
+		iGet := p.evIndex("call", 0, func(s string) bool { return strings.Contains(s, ".getMemoized(") })
+		if iGet < 0 || lastReturn(p) == "" {
+			continue
+		}
+		evaluates := p.evIndex("call", iGet, func(s string) bool { return strings.Contains(s, ".parseRule(") }) >= 0
+		if evaluates {
+			continue
+		}
+		nHit++
+		reinstates := p.evIndex("call", iGet, func(s string) bool { return strings.Contains(s, ".restoreState(") }) >= 0
+		if !reinstates {
+			nHitStateless++
+		}
+	}
+	r.Check(nHitStateless == 0, "C05-h", "T.parseRuleRecursiveLeader:memo-hit-reinstates-state", v.Name, v.Where(fd.Pos()), fmt.Sprintf("%d paths return a remembered result, each reinstating the state it ended with", nHit),
+		fmt.Sprintf("%d of %d paths that return a remembered result do so without touching the state store: `S <- E ';' {…} / E '.' {…}; E <- E '+' T / T; T <- [0-9]+ #{ count++ }` on `1+2.` ends with count unset although two T matched on the successful path", nHitStateless, nHit))
 }
